@@ -31,6 +31,17 @@ CLAIMED = {
         design_ref='DESIGN.md 4 C02',
         note=TRUST + 'Bounds: p per direction as listed; buffers/accessors for extents <= 4..8. Transpose sufficiency of the buffer '
                      'is the absence of numpy errors in the C01/C03 runs.'),
+    'C04': dict(
+        category='proof',
+        technique='inductive step by concolic symbolic execution of the real Grid methods from an arbitrary invariant-satisfying state; z3 bit-vector queries on symbolic-shape buffers',
+        text='One inductive step from an arbitrary valid state: the discrete part of the pre-state (save memory, buffer index '
+             'permutation, current/saved layout, flags, argument) is forked by the solver, extents and buffer contents are symbolic; '
+             'the real setLayout / saveGridValues / restoreGridValues / freeGridSave / getAllData run with LayoutHandler.transpose '
+             'replaced by its C01/C03 contract; z3 shows the representation invariant and the single-array reference model hold '
+             'afterwards and that illegal save/restore/free are refused exactly. Because the invariant is re-established, histories '
+             'of any length are covered. Violations are replayed through a concrete history on the real Grid + LayoutHandler.',
+        design_ref='DESIGN.md 4 C04',
+        note=TRUST + 'Assumes the transpose contract (C01/C03) and the stated representation invariant; extents <= 4; payload abstract.'),
     'C07': dict(
         category='proof',
         technique='concolic symbolic execution of the real spline kernels on exact z3 Real proxies; per-path polynomial identities decided by z3 (nlsat)',
